@@ -1133,4 +1133,244 @@ theorem core_afterReplace (w : W) (wid : Nat) (h : Core fk w) : Core fk (w.after
     · exact (core_tryRoute _ _ h).frame (availChange_frame _ _ _).act
     · exact core_tryRoute _ _ h
 
+
+/-! ## Worker replacement -/
+
+/-- the tail shared by `worker_complete` and `replace_worker`: hand the next queued job over -/
+def WP.nextJob (p : WP) (e : Env) : WP × Env :=
+  match p.getNext e with
+  | (some j, p, e) => p.dispatchJob e j
+  | (none, p, e) => (p, e)
+
+theorem sres_nextJob (p0 : WP) (e : Env) (fk : List Nat) (hc0 : p0.curr = []) (c0 : Cpl p0 e fk) :
+    SRes p0 e (p0.nextJob e).1 (p0.nextJob e).2 fk := by
+  unfold WP.nextJob
+  have hn := envEq_getNext p0 e
+  cases hg : p0.getNext e with
+  | mk r pe =>
+    obtain ⟨p2, e2⟩ := pe
+    have ha2 : p2.actor = p0.actor := by have := getNext_actor p0 e; rw [hg] at this; exact this
+    have hw2 : p2.wid = p0.wid := by have := getNext_wid' p0 e; rw [hg] at this; exact this
+    have hc2 : p2.curr = p0.curr := by have := getNext_curr p0 e; rw [hg] at this; exact this
+    rw [hg] at hn
+    simp only at hn
+    have s2 : SRes p0 e p2 e2 fk := sres_keep c0 ha2 hw2 hc2 hn
+    cases r with
+    | none => exact s2
+    | some j => exact s2.trans (sres_dispatchJob p2 e2 j fk (by rw [hc2]; exact hc0) s2.cpl)
+
+theorem replaceWorker_eq (p : WP) (e : Env) (naid : Nat) :
+    p.replaceWorker e naid =
+      WP.nextJob { p with curr := [], pending := p.curr.foldl (fun acc x => acc.erase x.1) p.pending, actor := naid } e := rfl
+
+/-- the supervision event of actor `who` is taken from the queue; no slot refers to it -/
+theorem core_dropSup {w0 w : W} {who : Nat} {rest : List Nat} (h : Core fk w0) (hs : w0.env.sup = who :: rest)
+    (hno : ∀ p ∈ w0.pool, p.actor ≠ who)
+    (h1 : w.pool = w0.pool) (h2 : w.byActor = w0.byActor) (h3 : w.nextAid = w0.nextAid)
+    (h4 : w.env.actors = w0.env.actors) (h5 : w.env.sup = rest) : Core fk w := by
+  have hga : ∀ b, w.env.getActor b = w0.env.getActor b := fun b => by unfold Env.getActor; rw [h4]
+  refine ⟨h.slot.of_pool h1, by rw [h1]; exact h.nodupW, ?_, ?_, ?_, ?_, ?_, ?_, ?_⟩
+  · intro aid a ha; rw [h3]; rw [hga] at ha; exact h.aidLt aid a ha
+  · intro aid ha; rw [h5] at ha; rw [hga]; exact h.supDead aid (by rw [hs]; exact List.mem_cons_of_mem _ ha)
+  · intro p hp; rw [h1] at hp; rw [h2]; exact h.by1 p hp
+  · intro x hx; rw [h2] at hx; rw [h1]; exact h.by2 x hx
+  · intro p hp
+    rw [h1] at hp
+    obtain ⟨a, g, hw, ha, hd⟩ := h.sa p hp
+    refine ⟨a, by rw [hga]; exact g, hw, ha, ?_⟩
+    intro hx
+    obtain ⟨hm, hf⟩ := hd hx
+    rw [hs] at hm
+    rcases List.mem_cons.mp hm with hm | hm
+    · exact absurd hm (hno p hp)
+    · exact ⟨by rw [h5]; exact hm, hf⟩
+  · intro aid a ha hal hn; rw [hga] at ha; rw [h1] at hn; exact h.free aid a ha hal hn
+  · intro wid hn; rw [h1] at hn; exact h.fin wid hn
+
+/-- the dead worker `who` of slot `wid` is replaced by a freshly built actor -/
+theorem core_replace {w0 w1 : W} {who wid : Nat} {rest : List Nat} {p p1 : WP} (h : Core fk w0)
+    (hs : w0.env.sup = who :: rest) (hg : getW w0.pool wid = some p) (hpa : p.actor = who)
+    (hw1 : p1.wid = p.wid) (ha1 : p1.actor = w0.nextAid) (hc1 : p1.curr = []) (hso : SlotOk p1)
+    (h1 : w1.pool = setW w0.pool wid p1)
+    (h2 : w1.byActor = w0.byActor.filter (fun (x : Nat × Nat) => x.1 != who) ++ [(w0.nextAid, wid)])
+    (h3 : w1.nextAid = w0.nextAid + 1)
+    (h4 : w1.env = ({ w0.env with sup := rest } : Env).spawn wid w0.nextAid) : Core fk w1 := by
+  have hpw : p.wid = wid := getW_wid hg
+  have hp1w : p1.wid = wid := hw1.trans hpw
+  have hpm : p ∈ w0.pool := getW_mem hg
+  have hp1m : p1 ∈ w1.pool := by rw [h1]; exact mem_setW_self hg
+  generalize he0 : ({ w0.env with sup := rest } : Env) = e0 at h4
+  have hga0 : ∀ b, e0.getActor b = w0.env.getActor b := fun b => by subst he0; rfl
+  have hsup1 : w1.env.sup = rest := by rw [h4]; subst he0; rfl
+  have hnone : e0.getActor w0.nextAid = none := by
+    rw [hga0]
+    cases hx : w0.env.getActor w0.nextAid with
+    | none => rfl
+    | some x => exact absurd (h.aidLt _ x hx) (Nat.lt_irrefl _)
+  -- the old actor is dead, so no report of the slot is pending
+  obtain ⟨a, g, haw, hal, hdead⟩ := h.sa p hpm
+  obtain ⟨a2, g2, hd2⟩ := h.supDead who (by rw [hs]; exact List.mem_cons_self ..)
+  rw [hpa] at g
+  rw [g] at g2; cases g2
+  have hfk : fk wid = [] := by rw [← hpw]; exact (hdead hd2).2
+  have hother : ∀ q ∈ w0.pool, q.wid ≠ wid → q.actor ≠ who := by
+    intro q hq hne hqa
+    have := h.actor_inj hq hpm (hqa.trans hpa.symm)
+    subst this; exact hne hpw
+  have hmem : ∀ q, q ∈ w1.pool → q = p1 ∨ (q ∈ w0.pool ∧ q.wid ≠ wid) := by
+    intro q hq; rw [h1] at hq; exact mem_setW_ne h.nodupW hg hp1w hq
+  have hold : ∀ b x, w0.env.getActor b = some x → w1.env.getActor b = some x := by
+    intro b x hb; rw [h4]; exact getActor_spawn_old _ _ _ _ _ (by rw [hga0]; exact hb)
+  refine ⟨h.slot.setW hso h1, by rw [h1]; exact nodupW_setW hp1w h.nodupW, ?_, ?_, ?_, ?_, ?_, ?_, ?_⟩
+  · intro b x hb
+    rw [h4] at hb; rw [h3]
+    rcases getActor_spawn_inv _ _ _ _ _ hb with hb | ⟨_, hb, _⟩
+    · rw [hga0] at hb; exact Nat.lt_succ_of_lt (h.aidLt b x hb)
+    · rw [hb]; exact Nat.lt_succ_self _
+  · intro b hb
+    rw [hsup1] at hb
+    obtain ⟨x, gx, hx⟩ := h.supDead b (by rw [hs]; exact List.mem_cons_of_mem _ hb)
+    exact ⟨x, hold b x gx, hx⟩
+  · intro q hq
+    rw [h2]
+    rcases hmem q hq with h' | ⟨h', hne⟩
+    · subst h'; rw [ha1, hp1w]; exact List.mem_append_right _ (List.mem_singleton_self _)
+    · refine List.mem_append_left _ (List.mem_filter.mpr ⟨h.by1 q h', ?_⟩)
+      simpa using hother q h' hne
+  · intro x hx
+    rw [h2] at hx
+    rcases List.mem_append.mp hx with hx | hx
+    · obtain ⟨hx1, hx2⟩ := List.mem_filter.mp hx
+      obtain ⟨q, hq, hqa, hqw⟩ := h.by2 x hx1
+      have hne : q.wid ≠ wid := by
+        intro hc
+        have : q = p := nodupW_eq_of_wid h.nodupW hq hpm (hc.trans hpw.symm)
+        subst this
+        rw [← hqa, hpa] at hx2; simp at hx2
+      exact ⟨q, by rw [h1]; exact mem_setW_of_ne hq hne, hqa, hqw⟩
+    · simp only [List.mem_singleton] at hx; subst hx
+      exact ⟨p1, hp1m, ha1, hp1w⟩
+  · intro q hq
+    rcases hmem q hq with h' | ⟨h', hne⟩
+    · subst h'
+      refine ⟨{ aid := w0.nextAid, wid := wid }, by rw [h4, ha1]; exact getActor_spawn_new _ _ _ hnone, hp1w.symm, ?_, ?_⟩
+      · intro _; exact ⟨rfl, by rw [hc1, hp1w, hfk]; rfl⟩
+      · intro hc; cases hc
+    · obtain ⟨x, gx, hxw, hxa, hxd⟩ := h.sa q h'
+      refine ⟨x, hold _ x gx, hxw, hxa, ?_⟩
+      intro hx
+      obtain ⟨hm, hf⟩ := hxd hx
+      rw [hs] at hm
+      rcases List.mem_cons.mp hm with hm | hm
+      · exact absurd hm (hother q h' hne)
+      · exact ⟨by rw [hsup1]; exact hm, hf⟩
+  · intro b x hb hxl hn
+    rw [h4] at hb
+    rcases getActor_spawn_inv _ _ _ _ _ hb with hb | ⟨_, hb, _⟩
+    · rw [hga0] at hb
+      have hbw : b ≠ who := by
+        intro hc; subst hc; rw [g] at hb; cases hb; rw [hd2] at hxl; cases hxl
+      refine h.free b x hb hxl ?_
+      intro q hq
+      by_cases hqw : q.wid = wid
+      · have : q = p := nodupW_eq_of_wid h.nodupW hq hpm (hqw.trans hpw.symm)
+        subst this; rw [hpa]; exact fun hc => hbw hc.symm
+      · exact hn q (by rw [h1]; exact mem_setW_of_ne hq hqw)
+    · exact absurd (ha1.trans hb.symm) (hn p1 hp1m)
+  · intro x hn
+    have hx : x ≠ wid := fun hc => hn p1 hp1m (hp1w.trans hc.symm)
+    refine h.fin x ?_
+    intro q hq
+    by_cases hqw : q.wid = wid
+    · rw [hqw]; exact fun hc => hx hc.symm
+    · exact hn q (by rw [h1]; exact mem_setW_of_ne hq hqw)
+
+theorem setW_setW (pool : List WP) (wid : Nat) (p1 p' : WP) (h1 : p1.wid = wid) :
+    setW (setW pool wid p1) wid p' = setW pool wid p' := by
+  induction pool with
+  | nil => rfl
+  | cons x xs ih =>
+    by_cases hx : (x.wid == wid) = true
+    · have h1' : (p1.wid == wid) = true := by simp [h1]
+      simp only [setW, hx, if_true, h1']
+    · have hx' : (x.wid == wid) = false := by simpa using hx
+      simp only [setW, hx', Bool.false_eq_true, if_false, ih]
+
+theorem core_handleSupervisorEvt (w0 : W) (who : Nat) (rest : List Nat) (h : Core fk w0) (hs : w0.env.sup = who :: rest) :
+    Core fk (({ w0 with env := { w0.env with sup := rest } } : W).handleSupervisorEvt who) := by
+  unfold W.handleSupervisorEvt
+  simp only
+  split
+  · rename_i hf
+    refine core_dropSup h hs ?_ rfl rfl rfl rfl rfl
+    intro p hp hpa
+    have := List.find?_eq_none.mp hf _ (h.by1 p hp)
+    simp [hpa] at this
+  · rename_i x wid hf
+    have hx1 : x = who := by
+      have := List.find?_some hf
+      simpa using this
+    subst hx1
+    have hxm : (x, wid) ∈ w0.byActor := List.mem_of_find?_eq_some hf
+    obtain ⟨p, hpm, hpa, hpw⟩ := h.by2 _ hxm
+    simp only at hpa hpw
+    have hg : getW w0.pool wid = some p := by
+      have := getW_of_mem_nodup hpm h.nodupW
+      rw [hpw] at this; exact this
+    rw [hg]
+    simp only
+    rw [replaceWorker_eq]
+    generalize hp1 : ({ p with curr := [], pending := p.curr.foldl (fun acc x => acc.erase x.1) p.pending, actor := w0.nextAid } : WP) = p1
+    have hp1w : p1.wid = p.wid := by subst hp1; rfl
+    have hp1a : p1.actor = w0.nextAid := by subst hp1; rfl
+    have hp1c : p1.curr = [] := by subst hp1; rfl
+    have hso1 : SlotOk p1 := by
+      refine ⟨by rw [hp1c]; simp, ?_⟩
+      intro k
+      subst hp1
+      have hh := h.slot p hpm
+      have := hh.tracks k
+      have h1 := hh.one
+      cases hc : p.curr with
+      | nil => simp only [hc, keysCurr, keysMq, List.map_nil, List.count_nil, List.foldl_nil, Nat.zero_add] at this ⊢; exact this
+      | cons y ys =>
+        rw [hc] at h1
+        have : ys = [] := by
+          cases ys with
+          | nil => rfl
+          | cons _ _ => simp at h1
+        subst this
+        simp only [hc, keysCurr, keysMq, List.map_cons, List.map_nil, List.count_cons, List.count_nil, List.foldl_cons,
+          List.foldl_nil] at this ⊢
+        rw [count_erase_nat]
+        by_cases hk : k = y.1
+        · subst hk; simp only [if_true, beq_self_eq_true] at this ⊢; omega
+        · have hy : (y.1 == k) = false := by simp; exact fun h' => hk h'.symm
+          simp only [hk, if_false, hy, Bool.false_eq_true] at this ⊢; omega
+    generalize he1 : (({ w0.env with sup := rest } : Env).spawn wid w0.nextAid) = e1
+    -- the world with the fresh actor installed, before the next queued job is handed over
+    have hc1 : Core fk { w0 with
+        nextAid := w0.nextAid + 1, env := e1, pool := setW w0.pool wid p1
+        byActor := w0.byActor.filter (fun (y : Nat × Nat) => y.1 != x) ++ [(w0.nextAid, wid)] } :=
+      core_replace h hs hg hpa hp1w hp1a hp1c hso1 rfl rfl rfl he1.symm
+    have hpw' : p.wid = wid := getW_wid hg
+    have hg1 : getW (setW w0.pool wid p1) wid = some p1 := getW_setW_same hg (hp1w.trans hpw')
+    have hcp1 : Cpl p1 e1 (fk wid) := by
+      have := hc1.sa p1 (getW_mem hg1)
+      rw [hp1w, hpw'] at this; exact this
+    have r := sres_nextJob p1 e1 (fk wid) hp1c hcp1
+    have hso' : SlotOk (p1.nextJob e1).1 := by
+      have := slotOk_inv.replace p e1 w0.nextAid (h.slot p hpm)
+      rw [replaceWorker_eq, hp1] at this; exact this
+    cases hnj : p1.nextJob e1 with
+    | mk p' e' =>
+      rw [hnj] at r hso'
+      simp only at r hso' ⊢
+      apply core_afterReplace
+      refine core_slotUpdate (w := { w0 with
+        nextAid := w0.nextAid + 1, env := e1, pool := setW w0.pool wid p1
+        byActor := w0.byActor.filter (fun (y : Nat × Nat) => y.1 != x) ++ [(w0.nextAid, wid)] }) hc1 hg1 r hso'
+        (fun _ _ => rfl) ?_ rfl rfl
+      exact (setW_setW w0.pool wid p1 p' (hp1w.trans hpw')).symm
+
 end Factory
